@@ -133,7 +133,11 @@ def load_module(hashed_grammar, file_io, cache_path=None):
 
 
 def _load_from_file_system(hashed_grammar, path, p_time, cache_path=None):
-    cache_path = _get_hashed_path(hashed_grammar, path, cache_path=cache_path)
+    try:
+        cache_path = _get_hashed_path(hashed_grammar, path, cache_path=cache_path)
+    except PermissionError:
+        # The cache directory does not exist and cannot be created.
+        return None
     try:
         if p_time > os.path.getmtime(cache_path):
             # Cache is outdated
